@@ -19,6 +19,7 @@ func runC04(c *Ctx) {
 	runC04NodeLister(c)
 	runC04Registration(c)
 	runC04PrePredicateEvaluatedEachTime(c)
+	runC04CloneCompleteness(c)
 	p, fx := c.P, c.Fx
 	const pkgFw = "pkg/scheduler/framework"
 	const pkgCommon = "pkg/scheduler/actions/common"
@@ -1032,4 +1033,67 @@ func runC04PrePredicateEvaluatedEachTime(c *Ctx) {
 			"the registered pre-predicate function can answer without evaluating ("+pathStr(path)+"), e.g. from a per-pod memo: after a candidate domain was rolled back the later pods of the gang keep the affinity state computed while their siblings were placed there, and pods with mutual required anti-affinity are bound to one node")
 	}
 	c.Floor("O11", "MPT registered pre-predicate functions", n, 1)
+}
+
+// runC04CloneCompleteness (O12): the victim-based actions simulate placements on CLONES of a workload
+// (PodGroupInfo.CloneWithTasks → SubGroupSet.Clone / PodSet.Clone → …); a constraint that a clone loses (the topology a
+// sub group must stay within, a required level) is not enforced in the simulation, and victims are evicted for a
+// placement that breaks it. For every Clone method of the scheduler's api types that builds its result as a composite
+// literal of its own type, every field of the type is assigned (reviewed exceptions: caches that are recomputed).
+func runC04CloneCompleteness(c *Ctx) {
+	reviewed := map[string]string{
+		"pkg/scheduler/api/topology_info.TopologyConstraintInfo.schedulingConstraintsSignature": "memo of a value derived from the other fields; recomputed on demand when empty",
+	}
+	n := 0
+	for _, fn := range c.P.FuncsIn("pkg/scheduler/api") {
+		recv := fn.Signature.Recv()
+		if recv == nil || fn.Name() != "Clone" || len(fn.Blocks) == 0 || fn.Signature.Results().Len() != 1 {
+			continue
+		}
+		ptr, ok := recv.Type().(*types.Pointer)
+		if !ok || !types.Identical(fn.Signature.Results().At(0).Type(), recv.Type()) {
+			continue
+		}
+		named, ok := ptr.Elem().(*types.Named)
+		if !ok {
+			continue
+		}
+		st, ok := named.Underlying().(*types.Struct)
+		if !ok {
+			continue
+		}
+		for _, in := range instrsIn(fn, func(in ssa.Instruction) bool {
+			a, ok := in.(*ssa.Alloc)
+			return ok && a.Comment == "complit" && types.Identical(a.Type(), recv.Type())
+		}) {
+			a := in.(*ssa.Alloc)
+			n++
+			set := map[int]bool{}
+			for _, r := range *a.Referrers() {
+				if fa, ok := r.(*ssa.FieldAddr); ok {
+					for _, rr := range *fa.Referrers() {
+						if s, ok := rr.(*ssa.Store); ok && s.Addr == ssa.Value(fa) {
+							set[fa.Field] = true
+						}
+					}
+				}
+			}
+			// decided for the types that carry placement constraints; the other Clone literals of the api packages are
+			// counted (the rule must keep seeing them) but are outside this property
+			pk := named.Obj().Pkg().Path()
+			if !strings.HasSuffix(pk, "/topology_info") && !strings.HasSuffix(pk, "/subgroup_info") && !strings.HasSuffix(pk, "/podgroup_info") {
+				continue
+			}
+			var missing []string
+			for i := 0; i < st.NumFields(); i++ {
+				key := typeKey(named) + "." + st.Field(i).Name()
+				if !set[i] && reviewed[key] == "" {
+					missing = append(missing, st.Field(i).Name())
+				}
+			}
+			c.Check(len(missing) == 0, "O12", "MUSTDEF", funcKey(fn)+": the clone's literal assigns every field", instrPos(a), fmt.Sprintf("%d fields", st.NumFields()),
+				"the clone built by "+funcKey(fn)+" leaves "+strings.Join(missing, ", ")+" at the zero value: a simulation on the clone does not see that part of the original (e.g. which topology a sub group is constrained to), and evictions are made for placements the real allocation would not accept")
+		}
+	}
+	c.Floor("O12", "MUSTDEF Clone methods that build a literal of their own type", n, 3)
 }
